@@ -194,16 +194,24 @@ def make_fn(name, t, pats):
     return L.Fn(name, [("x", t)], INT, E("when", INT, (L.var("x", t),), clauses))
 
 
-def source_of(fn):
-    """module text + byte spans of every clause pattern (to identify the clause a diagnostic points at)"""
+ALIASES = {"Some": "Just", "None": "Nothing"}
+
+
+def source_of(fn, alias=False):
+    """module text + byte spans of every clause pattern (to identify the clause a diagnostic points at).
+    alias=True: the Option constructors are imported under other names (`use aiken.{Some as Just, None as Nothing}`) and
+    the patterns use those names - the checker must see through the alias."""
     types = "\n".join(d.show() for d in L.ADTS.values())
-    head = f"{types}\n\npub fn {fn.name}(x: {L.show_type(fn.params[0][1])}) -> Int {{\n  when x is {{\n"
+    use = "use aiken.{Some as Just, None as Nothing}\n\n" if alias else ""
+    head = f"{use}{types}\n\npub fn {fn.name}(x: {L.show_type(fn.params[0][1])}) -> Int {{\n  when x is {{\n"
     out = head
     spans = []
     for p, body in fn.body.extra:
         out += "    "
         start = len(out.encode())
         ptxt = p.show()
+        if alias:
+            ptxt = re.sub(r"\bSome\b", "Just", re.sub(r"\bNone\b", "Nothing", ptxt))
         out += ptxt
         spans.append((start, start + len(ptxt.encode())))
         out += " -> {\n      " + L.show(body, 3) + "\n    }\n"
@@ -272,6 +280,7 @@ def parse_missing(txt, t):
             return PBytes(bytes.fromhex(tk[2:-1]))
         if tk is not None and re.match(r"[A-Z]", tk):
             name = eat()
+            name = {v: k for k, v in ALIASES.items()}.get(name, name) if name not in dict(L.ctors_of(t) if t[0] in ("adt", "option", "bool") else []) else name
             if t[0] == "bool":
                 return PCtor(name, [])
             cs = dict(L.ctors_of(t))
@@ -358,9 +367,9 @@ def decide(t, pats, timeout_ms=20000):
     return dict(exhaustive=exhaustive, escape=escape, reach=reach, queries=q, solver_s=st, x=x, conf=conf, xv=xv, ms=ms, chk=chk)
 
 
-def check_matrix(res, name, t, pats, depth, width, run_dynamic=True):
+def check_matrix(res, name, t, pats, depth, width, run_dynamic=True, alias=False):
     fn = make_fn("wfn", t, pats)
-    src, spans = source_of(fn)
+    src, spans = source_of(fn, alias)
     r = U.compile_module(src, "silent", "all", "lib")
     d = decide(t, pats)
     ob = Obligation(name, "discharged", "")
@@ -476,11 +485,13 @@ def _job(job):
         for j in range(8):
             t = rnd.choice(TYPES)
             pats = random_matrix(rnd, t)
-            check_matrix(res, f"rnd/{seed}.{idx}.{j}", t, pats, depth, width)
+            check_matrix(res, f"rnd/{seed}.{idx}.{j}", t, pats, depth, width, alias=("option" in str(t) and rnd.random() < 0.5))
     elif kind == "fixed":
         for j, (t, pats) in enumerate(fixed_matrices()):
             if j % 8 == idx:
                 check_matrix(res, f"fixed/{j}", t, pats, depth, width)
+                if "option" in str(t):
+                    check_matrix(res, f"fixed/{j}/aliased", t, pats, depth, width, alias=True)
     else:  # exhaustive enumeration for one type (thorough)
         t = TYPES[idx]
         alpha = refutable_variants(t, 2)
